@@ -391,6 +391,26 @@ func runCase(c *harness.Ctx, id string, ac *acase, uniq int) {
 			}
 		}
 		c.Count("bids_asked_on_another_parent", 1)
+		// A second auction for the same slot, parent and proposer in which no relay offers anything any more (the
+		// beacon node asks again after the relays withdrew): its result, no winner, is what is served from then on.
+		if res.WinningParticipation != nil && uniq%2 == 0 {
+			for k, rl := range relays {
+				rl.Silent, rl.Latency = false, 5*time.Millisecond
+				rl.Steps = rl.Steps[:0]
+				rl.Steps = append(rl.Steps, struct {
+					At  time.Duration
+					Bid *harness.BidSpec
+					Err bool
+				}{0, nil, k%2 == 0})
+			}
+			res2, err2 := via.env.Svc.AuctionBlock(ctx, theSlot, parent, via.acct.Pub48())
+			if err2 == nil && res2 != nil && res2.WinningParticipation == nil {
+				if served3, _ := via.env.Svc.BuilderBid(ctx, theSlot, parent, via.acct.Pub48()); served3 != nil {
+					fail("served-bid-without-winner:after-an-earlier-winner", "a second auction for the same slot, parent and proposer had no winner, yet the block relay still serves the first auction's bid to the beacon node")
+				}
+				c.Count("second_auctions_without_winner", 1)
+			}
+		}
 	}
 	// eligible offers that clearly arrived / may have arrived before the deadline
 	var defBest, genBest *big.Int
